@@ -1,7 +1,7 @@
 """C19 Contact pair filtering -- the kernel side (what is done with a pair-table entry).
 
-The pair table itself (Model.nxn_pairid, built by put_model with numpy) is outside the dialect; claimed here is what the
-device code does with an entry (pairid[0]: >= 0 explicit pair id, -1 ordinary geom pair that passed the filters, -2
+The pair table (Model.nxn_pairid[:, 0], built by put_model with vectorised numpy) is read pointwise for one symbolic geom
+pair (group pair_table, wpv/npflow.py); the other groups state what the device code does with an entry (pairid[0]: >= 0 explicit pair id, -1 ordinary geom pair that passed the filters, -2
 filtered out; pairid[1] >= 0: collision-sensor pair):
  (W) collision_core.write_contact: a pair filtered out (pairid[0] == -2) that no sensor asks for allocates nothing and
      reports no contact; a reported contact carries the CONSTRAINT type bit exactly when pairid[0] >= -1 and the geoms are
@@ -22,7 +22,7 @@ from .common import canary
 INFO = {
   "trusted": ["semantics of the pair-id codes as documented in io.put_model (-2 filtered, -1 geom pair, >= 0 explicit pair)"],
   "undecided": [
-    "the pair table itself: put_model's numpy code (contype/conaffinity test, same weld body, parent-child, excludes, explicit pairs) is outside the dialect the verifier translates",
+    "the pair table: np.triu_indices enumerating the pairs g1 < g2 in the order upper_tri_index addresses (numpy semantics, trusted); the collision-sensor column; flex / height-field special cases",
     "that the broadphase kernels copy the table entry unchanged (kernels with closure-built filter functions are outside the dialect)",
     "solref / solimp mixing weights of ordinary pairs (compared with MuJoCo numerics)",
   ],
@@ -131,5 +131,60 @@ def g_filter_bypass(tier):
   return out
 
 
+def g_pair_table(tier):
+  """(T) the filter table itself: the numpy slice of io.put_model that computes Model.nxn_pairid[:, 0], read pointwise
+  for one symbolic geom pair g1 < g2 (wpv/npflow.py), against the rule of the statement."""
+  import ast
+
+  from wpv.consts import enum_namespace
+  from wpv.contracts import Obligation
+  from wpv.npflow import Pointwise
+
+  key = "io:put_model"
+  P = Pointwise(key, enums={"types.DisableBit.FILTERPARENT": int(enum_namespace().DisableBit.FILTERPARENT)})
+  P.run_slice("filterparent", "nxn_pairid_contact")
+  T = P.i(P.env["nxn_pairid_contact"])
+  g1, g2 = P.g1, P.g2
+  f = P.uf
+  I2 = lambda x: z3.Int2BV(x, 32)
+  b1, b2 = f("geom_bodyid")(g1), f("geom_bodyid")(g2)
+  w1, w2 = f("body_weldid")(b1), f("body_weldid")(b2)
+  wp_ = lambda w: f("body_weldid")(f("body_parentid")(w))
+  fp = (I2(z3.Int("mjm.opt.disableflags")) & z3.BitVecVal(P.enums["types.DisableBit.FILTERPARENT"], 32)) == z3.BitVecVal(0, 32)
+  compatible = ((I2(f("geom_contype")(g1)) & I2(f("geom_conaffinity")(g2))) | (I2(f("geom_contype")(g2)) & I2(f("geom_conaffinity")(g1)))) != z3.BitVecVal(0, 32)
+  parent_child = z3.And(fp, w1 != 0, w2 != 0, z3.Or(w1 == wp_(w2), w2 == wp_(w1)))
+  if "in_exclude_signature" not in P.ufs:
+    raise KeyError("exclude test (np.isin(..., mjm.exclude_signature)) not found in the slice")
+  excluded = P.ufs["in_exclude_signature"](b1 * 65536 + b2)
+  keep = z3.And(compatible, w1 != w2, z3.Not(parent_child), z3.Not(excluded))
+  def search(model, ob):
+    from wpv import replay as rp
+
+    cmd = ["VENV_PYTHON", "scenarios/c19_pair_table_search.py"]
+    rc, out = rp.run_native(cmd)
+    return {"native_cmd": cmd, "exit": rc, "reproduced": rc == 1, "meaning": "exit 1: the real put_model builds a table entry that contradicts the rule on one of the enumerated small models; 0: none found", "output": out[-2000:]}
+
+  meta = lambda g: {"function": key, "source_hash": P.info.source_hash, "goal": g, "statements": P.executed, "replay": search}
+  obs = [Obligation("put_model#pair_table.canary", list(P.facts), z3.BoolVal(False), func=key, kind="canary", expect="refutable", meta={"function": key})]
+  obs.append(Obligation("put_model#pair_table.kept_iff_rule", list(P.facts), (T == -1) == keep, func=key, kind="post", meta=meta("an ordinary pair is kept (-1) exactly if the geoms pass the contype/conaffinity test, belong to different weld bodies, are not weld-parent and weld-child (unless parent filtering is disabled) and are not excluded")))
+  obs.append(Obligation("put_model#pair_table.filtered_otherwise", list(P.facts), z3.Or(T == -1, T == -2), func=key, kind="post", meta=meta("every other pair is marked filtered (-2)")))
+  # after the slice: entries change only through the explicit-pair loop, which stores the pair's own id
+  stores = []
+  for st in P.rest:
+    for n in ast.walk(st):
+      if isinstance(n, (ast.Assign, ast.AugAssign)):
+        for t in n.targets if isinstance(n, ast.Assign) else [n.target]:
+          if isinstance(t, ast.Subscript) and isinstance(t.value, ast.Name) and t.value.id == "nxn_pairid_contact":
+            stores.append((st, n))
+      if isinstance(n, ast.Assign) and any(isinstance(t, ast.Name) and t.id == "nxn_pairid_contact" for t in n.targets):
+        stores.append((st, n))
+  ok = len(stores) == 1 and isinstance(stores[0][0], ast.For) and ast.unparse(stores[0][0].iter) == "range(mjm.npair)" and ast.unparse(stores[0][1].value) == ast.unparse(stores[0][0].target) and ast.unparse(stores[0][1].targets[0].slice).replace(" ", "") == f"upper_tri_index(mjm.ngeom,mjm.pair_geom1[{ast.unparse(stores[0][0].target)}],mjm.pair_geom2[{ast.unparse(stores[0][0].target)}])"
+  obs.append(Result(oid="put_model#pair_table.only_explicit_pairs_overwrite", status="discharged" if ok else "violated", kind="host", func=key, backend="host analysis", meta={"function": key, "goal": "after the filter rule the column is changed only by the loop over the explicit pairs, which stores pair i at the table position of (pair_geom1[i], pair_geom2[i])", "stores": [ast.unparse(n)[:120] for _, n in stores]}))
+  hs = [n for n in ast.walk(P.info.node) if isinstance(n, ast.Call) and ast.unparse(n.func) == "np.hstack" and "nxn_pairid_contact" in ast.unparse(n)]
+  ok2 = len(hs) == 1 and ast.unparse(hs[0].args[0]).replace(" ", "").startswith("[nxn_pairid_contact.reshape((-1,1)),")
+  obs.append(Result(oid="put_model#pair_table.column_zero_of_nxn_pairid", status="discharged" if ok2 else "violated", kind="host", func=key, backend="host analysis", meta={"function": key, "goal": "that column is column 0 of Model.nxn_pairid"}))
+  return obs
+
+
 def groups(tier):
-  return [("write_contact", g_write_contact), ("margin_gap", g_margin_gap), ("material", g_material), ("filter_bypass", g_filter_bypass)]
+  return [("pair_table", g_pair_table), ("write_contact", g_write_contact), ("margin_gap", g_margin_gap), ("material", g_material), ("filter_bypass", g_filter_bypass)]
